@@ -42,6 +42,8 @@ CMDS = {
     "req_as": "require Good as G2; G2->bump()",
     "call_g": "def g() do def a = 100; def qq = 5; a + qq end; g()",
     "read_q": "do qq catch all 'noq' end",
+    "loop_fn": "def lf() do for a in [1] do for a in [2] do a end end; "
+               "for [f, f] in [[3, 4]] do f end; 0 end; lf()",
     "req_uses": "require UsesGood; UsesGood->twice()",
     "req_missing": "require Missing",
     "req_broken": "require Broken",
@@ -81,6 +83,21 @@ class State:
                 s.interp.base_environment.put("checkerlang_module_path", lst)
             s.E = core.ckl.functions.get_none_environment()
             self.sessions[who] = s
+
+
+NOISE = ["def_a", "def_f", "inc_a", "req_good", "bump", "bump", "req_as",
+         "env_def", "partial", "req_uses"]
+
+
+def make_noise(config):
+    """another interpreter instance that lived in this process before the
+    one under test: instances must not see each other's definitions or
+    modules, so the expectations do not depend on it"""
+    ex = Sessions(["A"], ORDER)
+    n = State(config, ["A"])
+    for c in NOISE:
+        ex.execute(n, ("A", c))
+    return n
 
 
 def new_model():
@@ -178,6 +195,8 @@ class Sessions(e4.Explorer):
             exp = ["value", "105"]
         elif name == "read_q":
             exp = ["value", "'noq'"]
+        elif name == "loop_fn":
+            exp = ["value", "0"]
         elif name == "req_uses":
             s["loaded"] = True
             s["counter"] += 2
@@ -231,8 +250,10 @@ def explore_subtree(chunk):
     CONFIG[0] = chunk["config"]
     ex = Sessions(chunk["whos"], chunk["cmds"],
                   {tuple(p) for p in chunk["prefixes"]})
+    noise = make_noise(chunk["config"])
     state = State(chunk["config"], chunk["whos"])
     ex.explore(state, new_model(), [], chunk["depth"], agg)
+    del noise
     return agg
 
 
@@ -241,6 +262,7 @@ def explore_fresh(chunk):
     agg = core.Agg()
     CONFIG[0] = chunk["config"]
     ex = Sessions(chunk["whos"], chunk["cmds"])
+    noise = make_noise(chunk["config"])
     for hist in chunk["histories"]:
         ex.replay_fresh(lambda: State(chunk["config"], ["A"]), new_model,
                         list(hist), agg)
@@ -254,7 +276,9 @@ def replay(case, verbose=False):
     write_modules(CONFIG[0])
     ex = Sessions(["A", "B"], ORDER)
     hist = [tuple(h) for h in case["history"]]
+    noise = make_noise(CONFIG[0])
     out = ex.replay_fresh(lambda: State(CONFIG[0]), new_model, hist)
+    del noise
     bad = False
     for cmd, exp, obs in out:
         ok = obs[0] == exp[0] and (len(exp) < 2 or exp[1] is None or
@@ -271,7 +295,7 @@ def main(tier, seed):
     agg = core.Agg()
     core_cmds = ["def_a", "inc_a", "read_a", "def_f", "call_f", "partial",
                  "read_bc", "req_good", "bump", "req_broken", "req_cyc",
-                 "env_def", "env_read", "req_as", "call_g"]
+                 "env_def", "env_read", "req_as", "call_g", "loop_fn"]
     two = ["def_a", "inc_a", "read_a", "partial", "read_bc", "req_good",
            "bump", "req_missing", "env_def", "env_read"]
     if tier == "quick":
